@@ -124,7 +124,9 @@ def main(tier, seed, replay=None, prop=PROP, with_patches=False):
     res.assumptions = ['pickle restores an object by calling the reduce callable first, then unpickling the state, then BUILD (__setstate__): the event order of Pickle/State.v',
                        'states of opt-in objects are dicts (non-dict states are exercised by the harness only)']
     res.trusted.append('hand-written machine and pickler bookkeeping Pickle/State.v (pinned to state.py / remote_reduce by tools/pin.py; the announcements it predicts are compared with the reduce callables and children_names the real pickler emits); harness/pickle_graphs.py')
-    core.prove(res, prop, [], PROOFS, run_files=['theories/Pickle/StateRun.v'])
+    # the opt-in decision itself (SupportRemoteGetStateMeta.__check_type_cached, regenerated into Gen/MroScan.v and
+    # characterised in Pickle/MroProofs.v) decides WHICH instances have their state taken with remote=True
+    core.prove(res, prop, ['MroScan'], PROOFS + ['theories/Pickle/MroProofs.v'], run_files=['theories/Pickle/StateRun.v'])
     import sys
     sys.path.insert(0, core.REPO)
     rnd = random.Random(seed)
@@ -202,6 +204,47 @@ def direct_probes(res):
         if got != want or leftover:
             res.violation(dict(probe='falsy state', state=repr(st), features=[]),
                           f'opt-in object with remote state {st!r}: __setstate__ calls {got} (standard unpickling: {want}), load-time hook left on the instance: {leftover}',
+                          finding_matcher=known_matcher)
+    # the opt-in decision for classes with several bases, some of them classified before the class itself exists
+    # (a marker base without a remote-aware __getstate__; a plain mix-in that went through remote_pickle earlier)
+    from pyworkers.remote_pickle import SupportRemoteGetState
+    calls = []
+
+    class Aware:
+        def __getstate__(self, remote=False):
+            calls.append(remote)
+            return dict(self.__dict__)
+
+        def __setstate__(self, st):
+            self.__dict__.update(st)
+
+    class MarkerMixin(SupportRemoteGetState):
+        pass
+
+    class PlainMixin:
+        pass
+    for nm, c in (('Aware', Aware), ('MarkerMixin', MarkerMixin), ('PlainMixin', PlainMixin)):
+        c.__qualname__ = 'Probe' + nm; c.__module__ = pg.__name__; setattr(pg, 'Probe' + nm, c)
+    remote_pickle.dumps([PlainMixin(), MarkerMixin()])          # both mix-ins are classified now
+    for bases in ((MarkerMixin, Aware), (PlainMixin, Aware), (Aware, MarkerMixin), (Aware, PlainMixin), (PlainMixin, MarkerMixin, Aware)):
+        nm = 'ProbeMI_' + '_'.join(b.__qualname__ for b in bases)
+        try:
+            cls = type(nm, bases, {'__module__': pg.__name__})
+        except Warning:
+            continue
+        cls.__qualname__ = nm; setattr(pg, nm, cls)
+        del calls[:]
+        o = cls(); o.x = 1
+        try:
+            back = remote_pickle.loads(remote_pickle.dumps([o, o, {'k': o}]))
+            got = list(calls)
+            ok = got == [True] and back[0].x == 1 and back[0] is back[1] is back[2]['k']
+        except BaseException as e:   # noqa
+            got, ok = type(e).__name__, False
+        res.count('probe:multiple-inheritance'); res.case(('mi', nm), nontrivial=True)
+        if not ok:
+            res.violation(dict(probe='opt-in class with several bases', bases=[b.__qualname__ for b in bases], features=[]),
+                          f'instance of class({", ".join(b.__qualname__ for b in bases)}) - a remote-aware __getstate__ is inherited: __getstate__ called with remote={got}, expected exactly [True]',
                           finding_matcher=known_matcher)
     # two loads overlapping in time on two threads
     gate, inside = threading.Event(), threading.Event()
